@@ -39,6 +39,8 @@ type Obligation struct {
 	// Subst: callee -> contract function substitutions ("pkg.Func" -> "pkg.Contract"), each justified by another
 	// obligation of the same property that proves callee == contract on the current tree
 	Subst map[string]string
+	// SymMaps: keep symbolic map keys symbolic (see Program.SymMaps)
+	SymMaps bool
 	// Cuts: analyse the synchronisation events of every path with the SMT cut queries (C11)
 	Cuts bool
 	// AllowPanic: unrecovered panics on a path are part of normal behaviour for this harness (not reported)
@@ -257,6 +259,7 @@ func cmdCheck(args []string) int {
 			p.Budget = o.Budget
 		}
 		p.MapOrder = mapOrderFor(o.MapOrder)
+		p.SymMaps = o.SymMaps
 		p.MapOrderBudget = o.MapOrderBudget
 		if p.MapOrderBudget == 0 {
 			p.MapOrderBudget = 1
@@ -293,6 +296,10 @@ func cmdCheck(args []string) int {
 		opts.Seed = seed
 		if o.DeadlineSec > 0 {
 			opts.Deadline = time.Duration(o.DeadlineSec) * time.Second
+		} else if *tier == "quick" {
+			opts.Deadline = 15 * time.Minute // safety net: a quick obligation never runs longer (reported as truncated)
+		} else {
+			opts.Deadline = 60 * time.Minute
 		}
 		fmt.Fprintf(os.Stderr, "== %s/%s [%s] ...\n", o.Pkg, o.Harness, o.Mode)
 		var onPath func(*Exec, PathResult)
